@@ -12,7 +12,7 @@ from .values import Elem, Sym
 INT_WIDTH = {"byte": 1, "char": 1, "short": 2, "three": 3, "int": 4}
 INTS = list(INT_WIDTH)
 VALID_TYPES = ["byte", "char", "short", "three", "int", "bool", "bool:short", "string", "encoded_string", "blob",
-               "E", "E:short", "SF", "SB", "SU", "SC"]
+               "E", "E:short", "SF", "SB", "SU", "SC", "SP", "SX"]
 BAD_TYPES = ["Nope", "a:b:c", "char:char", "char:short", "bool:string", "E:string", "SF:char", "bool:bool", "E:E"]
 
 NOT_A_LITERAL = {"isdigit": False, "isint": False, "== 'true'": False, "== 'false'": False, "== 'None'": False,
@@ -29,8 +29,11 @@ class Namer:
     def digits(self, tag):
         return Sym("%s%d" % (tag, next(self.c)), preds={"isdigit": True, "isint": True})
 
+    def posint(self, tag):
+        return Sym("%s%d" % (tag, next(self.c)), preds={"isdigit": True, "isint": True, "positive": True})
+
     def negint(self, tag):
-        return Sym("%s%d" % (tag, next(self.c)), preds={"isdigit": False, "isint": True, "== 'true'": False, "== 'false'": False})
+        return Sym("%s%d" % (tag, next(self.c)), preds={"isdigit": False, "isint": True, "== 'true'": False, "== 'false'": False, "negative": True})
 
     def text(self, tag, **preds):
         p = {"contains '\\n'": False}
@@ -48,7 +51,14 @@ def declarations():
     sb = Elem("struct", {"name": "SB"}, [Elem("length", {"name": "n", "type": "char"}), f("s", "string", length="n")])  # bounded, not fixed
     su = Elem("struct", {"name": "SU"}, [f("x", "char"), f("s", "string")])  # unbounded
     sc = Elem("struct", {"name": "SC"}, [Elem("chunked", {}, [f("s", "string"), Elem("break"), f("n", "short")])])  # chunked
-    return [enum, sf, sb, su, sc]
+    # fixed size through every construct that may appear in a fixed-size struct: padded and encoded fixed strings,
+    # literal-length arrays, explicit default attributes, a dummy, bool/enum overrides
+    sp = Elem("struct", {"name": "SP"}, [f("s", "string", length="4", padded="true"), f("c", "char")])  # fixed size 5
+    sx = Elem("struct", {"name": "SX"}, [
+        Elem("array", {"name": "a", "type": "short", "length": "2", "delimited": "false", "optional": "false"}),
+        f("e", "encoded_string", length="3"), f("b", "bool:short", optional="false"), f("k", "E:three"),
+        Elem("dummy", {"type": "char"}, text="0")])  # fixed size 4 + 3 + 2 + 3 + 1 = 13
+    return [enum, sf, sb, su, sc, sp, sx]
 
 
 TYPE_INFO = {  # kind, underlying width (ints/bool/enum), fixed size, bounded
@@ -58,6 +68,7 @@ TYPE_INFO = {  # kind, underlying width (ints/bool/enum), fixed size, bounded
     "E": ("enum", 1, 1, True), "E:short": ("enum", 2, 2, True),
     "SF": ("struct", None, 3, True), "SB": ("struct", None, None, True), "SU": ("struct", None, None, False),
     "SC": ("struct", None, None, True),
+    "SP": ("struct", None, 5, True), "SX": ("struct", None, 13, True),
 }
 UNDERLYING = {"bool": "char", "bool:short": "short", "E": "char", "E:short": "short"}
 
@@ -215,7 +226,7 @@ def length_shapes():
             if d["offset"] == "0":
                 attrs["offset"] = "0"
             elif d["offset"] == "pos":
-                attrs["offset"] = nm.digits("off")
+                attrs["offset"] = nm.posint("off")
             elif d["offset"] == "neg":
                 attrs["offset"] = nm.negint("off")
             elif d["offset"] == "bad":
